@@ -2,6 +2,7 @@
 import itertools
 import json
 import os
+import random
 
 import gen
 import jsl
@@ -141,6 +142,8 @@ class Check(PropertyCheck):
         # reference = the oracle's own CP-SAT model of the instance, default parameters
         for k in range(2 if tier == "quick" else 12):
             yield Scenario(["new", "cpnew", f"mark bigdur {rng.randint(0, 10**6)}"], {"families": "bigdur", "solves": 1})
+        for k in range(4 if tier == "quick" else 30):
+            yield Scenario(["new", "cpnew", f"mark stalemeta {rng.randint(0, 10**6)}"], {"families": "stalemeta", "solves": 1})
         if tier == "thorough":
             for name in ["ft06", "la01", "la05", "orb01"][: 4]:
                 yield Scenario(["new", "cpnew", f"mark benchmark {name}"], {"families": "benchmark", "solves": 1})
@@ -182,6 +185,31 @@ class Check(PropertyCheck):
             jobs = [[(list(op.machines), op.duration) for op in job] for job in inst.jobs]
             ctx["timelimit_status"] = sched.metadata.get("status")
             res += self.check_schedule(inst, jobs, sched, brute=False)
+        elif line.startswith("mark stalemeta"):
+            # free-form metadata (also keys that look like bounds, as the benchmark instances carry them) is not part of
+            # the problem: a small instance with made-up `lower_bound` / `upper_bound` / `optimum` entries
+            from impl_ext import _ORToolsSolver, _NoSolution
+            r = random.Random(int(line.split()[2]))
+            _, jobs = gen.gen_instance(r, r.choice(["classic", "recirc", "irregular"]), max_jobs=3, max_machines=3, max_ops=3,
+                                       max_dur=6)
+            opt = brute_force_optimum(jobs)
+            total = sum(d for job in jobs for _, d in job)
+            meta = r.choice([{"lower_bound": opt + r.randint(1, 9)}, {"upper_bound": max(0, opt - r.randint(1, 3))},
+                             {"lower_bound": total + 5, "upper_bound": total + 9}, {"optimum": opt + 3},
+                             {"lower_bound": opt + 2, "upper_bound": opt + 2, "optimum": opt + 2}])
+            inst = jsl.JobShopInstance([[jsl.Operation(ms[0], d) for ms, d in job] for job in jobs], name="stale", **meta)
+            try:
+                sched = _ORToolsSolver().solve(inst)
+            except _NoSolution:
+                res.append(("no-solution", f"NoSolutionFoundError without a time limit (metadata {meta}, instance {jobs})"))
+                return res
+            except Exception as e:  # pylint: disable=broad-except
+                res.append(("solve-raised", f"solve raised {e!r} (metadata {meta}, instance {jobs})"))
+                return res
+            res += self.check_schedule(inst, jobs, sched)
+            if sched.metadata.get("status") == "optimal" and sched.makespan() != opt:
+                res.append(("not-optimal", f"status optimal with makespan {sched.makespan()}, exhaustive search finds {opt} "
+                            f"(metadata {meta}, instance {jobs})"))
         elif line.startswith("mark bigdur"):
             import random as _r
             from impl_ext import _ORToolsSolver
